@@ -95,7 +95,7 @@ def gen_graph(rng, depth=None, kinds=STRUCTURAL, permute=True):
             if sc['src'] == RAW and rng.random() < 0.3:
                 sc['src'] = None     # property omitted -> raw data
         elif k == 'Polynomial':
-            nc = rng.choice([0, 1, 2, 3, 4, 4, 6, 11, 13])
+            nc = rng.choice([0, 1, 2, 3, 4, 4, 6])
             sc = dict(kind=k, coeffs=[rand_coeff(rng) for _ in range(nc)], src=pick())
             if nc == 4 and rng.random() < 0.4:
                 sc['size_prop'] = False   # default size 4
